@@ -75,6 +75,7 @@ def run_one(job: dict, base: Path) -> dict:
             lab0.run_tasks([t0], **quiet)
             t_old = t0.result_meta.start
     F.PLAN = plan
+    F.HIT = 0
     os.environ['LV_FAULT_PLAN'] = json.dumps(plan)
     taskf = T(tid=1, shape=shape)
     labf = labtech.Lab(storage=F.FaultStorage(plain), context={'epoch': 1}, runner_backend=job['backend'],
@@ -87,6 +88,7 @@ def run_one(job: dict, base: Path) -> dict:
         raised = type(ex).__name__
     ops = list(F.OPLOG)
     count = F.COUNT
+    hit_here = F.HIT
     F.PLAN = None
     os.environ.pop('LV_FAULT_PLAN', None)
     task_failed = taskf not in res
@@ -135,7 +137,9 @@ def run_one(job: dict, base: Path) -> dict:
     obs['raw_ops'] = ops[:400]
     obs['nops'] = count if not plan['mode'].startswith('line') else len(ops)
     obs['fault_free'] = plan['mode'] in ('record', 'line-record') and shape != 'unpicklable'
-    obs['fault_hit'] = (plan['mode'] == 'inherent') or (plan.get('at', 0) > 0 and (task_failed or raised != ''))
+    # raise modes: the injector says whether the fault was raised (serial backend: same process); kills: the worker died
+    obs['fault_hit'] = (plan['mode'] == 'inherent') or (hit_here > 0 if 'raise' in plan['mode'] else
+                                                        (plan.get('at', 0) > 0 and (task_failed or raised != '')))
     shutil.rmtree(d, ignore_errors=True)
     return obs
 
